@@ -105,9 +105,9 @@ def gen_table(rng):
             row[a] = v
         row["uid"] = str(ext[n])
         if "score" in use_custom:
-            row["score"] = round(rng.random(), 4)
+            row["score"] = rng.choice([0.0, round(rng.random(), 4), round(rng.random(), 4)])
         if "count" in use_custom:
-            row["count"] = rng.randint(0, 99)
+            row["count"] = rng.choice([0, rng.randint(0, 99), rng.randint(1, 99)])
         if "kind" in use_custom:
             row["kind"] = rng.choice(["a", "bb", "ccc"])
         if "flag" in use_custom:
@@ -117,6 +117,16 @@ def gen_table(rng):
         if lid_mode != "none":
             row["lin_col"] = lid_of[n]
         rows.append(row)
+    # measurement columns with empty cells (not every detection was measured); zeros next to
+    # the gaps are values, not gaps
+    gaps = [c for c in ("score", "count") if c in use_custom and len(rows) >= 3
+            and rng.random() < 0.5]
+    for c in gaps:
+        holes = rng.sample(range(len(rows)), rng.randint(1, max(1, len(rows) // 3)))
+        for i_ in holes:
+            rows[i_][c] = np.nan
+        if all(isinstance(r[c], float) and r[c] != r[c] for r in rows):
+            rows[0][c] = 1  # (an all-empty column is not a property column)
     cols = list(rows[0].keys())
     rng.shuffle(cols)
     nm = {"time": names["time"], "id": names["id"], "parent_id": names["parent_id"],
@@ -140,7 +150,7 @@ def gen_table(rng):
             "lid_mode": lid_mode, "has_div": has_div, "zero_id": 0 in ids and idkind == "int",
             "nd": nd, "rows": rows, "cols": cols, "nm": nm, "idkind": idkind,
             "rootenc": rootenc, "mapkind": mapkind, "order": order, "posnames": posnames,
-            "names": names, "customs": use_custom, "tid_mode": tid_mode,
+            "names": names, "customs": use_custom, "gaps": gaps, "tid_mode": tid_mode,
             "edges": [(str(ext[u]), str(ext[v])) for u, v in forest.edges],
             "int_edges": list(forest.edges), "malform": None}
 
@@ -290,6 +300,13 @@ def compare(case, tracks, src):
             v = tracks.get_node_attr(n, c)
             if isinstance(v, np.generic):
                 v = v.item()
+            if isinstance(r[c], float) and r[c] != r[c]:
+                # an empty cell: the node has no value
+                if not (v is None or (isinstance(v, float) and v != v)):
+                    probs.append(("custom", f"node {n}: {c} = {v!r} for an empty cell",
+                                  f"C12/{src}/custom/{c}/empty-cell"))
+                    break
+                continue
             if v != r[c]:
                 probs.append(("custom", f"node {n}: {c} = {v!r} != {r[c]!r}",
                               f"C12/{src}/custom/{c}"))
@@ -552,6 +569,10 @@ def run_shard(spec):
                                     f"{case['mapkind']}/tid={case['tid_mode']}/"
                                     f"lid={case['lid_mode']}/{case['malform']}")
                     if not case["malform"]:
+                        if src == "df" and case.get("gaps"):
+                            acc["counters"]["df-wellformed-columns-with-empty-cells"] = \
+                                acc["counters"].get(
+                                    "df-wellformed-columns-with-empty-cells", 0) + 1
                         if src == "df" and case["index_kind"] != "default":
                             acc["counters"]["df-wellformed-nondefault-index"] = \
                                 acc["counters"].get("df-wellformed-nondefault-index", 0) + 1
@@ -595,7 +616,8 @@ def floors(tier):
     return {"df-wellformed": 800, "df-malformed": 800, "geff-wellformed": 150,
             "geff-malformed": 100, "wellformed-with-id-0": 100,
             "mapped-lineage-with-division": 50,
-            "df-wellformed-nondefault-index": 200, "df-features-argument": 100,
+            "df-wellformed-nondefault-index": 200,
+            "df-wellformed-columns-with-empty-cells": 100, "df-features-argument": 100,
             "df-with-label-image": 150}
 
 
